@@ -936,7 +936,7 @@ static void run_hist(vh::Trace& tr, vh::Rng& rng, int idx) {
     // ---- protocol: a history of setters, set_up and calls on one object
     // the object is default-constructed, or (quadratic prior, every other time) constructed with the documented two-argument
     // constructor in storage that does not happen to be zero-filled
-    const bool dirty = c.prior == "quad" && variant == 1;
+    const bool dirty = c.prior == "quad" && variant == 1 && !getenv("C09_SKIP_PLS2D"); // (under UBSan the load of the uninitialised bool itself stops the run)
     shared_ptr<Prior> pp;
     if (dirty) {
       void* mem = ::operator new(sizeof(QuadraticPrior<float>));
